@@ -256,6 +256,14 @@ fn rand_tree(rng: &mut StdRng, depth: u32) -> StructureTag {
     }
 }
 
+/// an upper bound of the length of any definite-length encoding with minimal lengths of `t`: six header octets per element
+fn size_bound(t: &StructureTag) -> usize {
+    6 + match &t.payload {
+        PL::P(v) => v.len(),
+        PL::C(k) => k.iter().map(size_bound).sum(),
+    }
+}
+
 /// I -> S: random trees and integers encoded by lber, written as ndjson for TraceBer.
 pub fn trace(out: &str, count: u64, rep: &mut Report) {
     let mut rng = StdRng::seed_from_u64(crate::seed_from_env());
@@ -265,7 +273,14 @@ pub fn trace(out: &str, count: u64, rep: &mut Report) {
             let t = rand_tree(&mut rng, 3);
             let tj = structure_to_json(&t);
             match encode(t.clone()) {
-                Ok(b) => {
+                Ok(mut b) => {
+                    // an output longer than any encoding of this tree can be is recorded by its head only (TraceBer rejects
+                    // it all the same; a codec whose every output grows would otherwise write gigabytes)
+                    let bound = size_bound(&t);
+                    if b.len() > bound {
+                        rep.count("oversize-output-recorded-by-its-head");
+                        b.truncate(bound + 16);
+                    }
                     let mut wt = b.clone();
                     wt.extend_from_slice(&[0xaa, 0xbb]);
                     let (ptree, rest) = match parse(&wt) {
